@@ -48,7 +48,17 @@ func (obj Fixnum) Readably(b []byte, p *Printer) []byte {
 			b = strconv.AppendInt(b, int64(obj), int(p.Base))
 		}
 	} else {
+		start := len(b)
 		b = strconv.AppendInt(b, int64(obj), int(p.Base))
+		if digits := string(b[start:]); (p.Escape || p.Readably) && (digits == "t" || digits == "nil") {
+			// The reader takes the tokens t and nil as the constants in
+			// every read base so digits that spell one of them are only
+			// read as an integer with the radix prefix.
+			b = append(b[:start], '#')
+			b = strconv.AppendInt(b, int64(p.Base), 10)
+			b = append(b, 'r')
+			b = strconv.AppendInt(b, int64(obj), int(p.Base))
+		}
 	}
 	return b
 }
